@@ -2,7 +2,7 @@ SPEC = dict(
     id="C18",
     bin="c18",
     cases_quick=192,
-    cases_thorough=6000,
+    cases_thorough=3000,
     shard=12,
     coq_dirs=["lib", "C34", "C35/Model.v", "C18"],
     level="proof",
